@@ -18,6 +18,7 @@ import (
 	"sort"
 	"strconv"
 	"sync"
+	"time"
 
 	"verifharness/quiet"
 )
@@ -401,6 +402,7 @@ type Explorer struct {
 	child          int
 	Bound          int
 	MaxExec        int
+	Deadline       time.Time // when set and passed, the exploration stops and reports Capped (never a violation)
 	Executions     int
 	Capped         bool
 	Silent         bool // the current execution belongs to another shard's report (root re-run)
@@ -419,7 +421,7 @@ func cost(points []Point, upto int) int {
 }
 
 func (e *Explorer) Explore(prefix []int) {
-	if e.MaxExec > 0 && e.Executions >= e.MaxExec {
+	if (e.MaxExec > 0 && e.Executions >= e.MaxExec) || (!e.Deadline.IsZero() && time.Now().After(e.Deadline)) {
 		e.Capped = true
 		return
 	}
